@@ -243,3 +243,14 @@ impl<'de> serde::Deserialize<'de> for SymLabel {
         Ok(SymLabel(<SymF as serde::Deserialize>::deserialize(d)?))
     }
 }
+
+/// Re-type a model fitted with `f64` as the same model over another scalar (constants), through its
+/// serde representation: for predictors whose `fit` only exists for primitive floats while `predict`
+/// is generic.  With `F = f64` this is an ordinary lossless round trip.
+pub fn to_scalar_model<M64: serde::Serialize, M: serde::de::DeserializeOwned>(m: &M64) -> M {
+    let v = serde_json::to_value(m).expect("model serialises");
+    scalar::DESERIALIZE_VALUES.store(true, std::sync::atomic::Ordering::Relaxed);
+    let r = serde_json::from_value::<M>(v);
+    scalar::DESERIALIZE_VALUES.store(false, std::sync::atomic::Ordering::Relaxed);
+    r.expect("model deserialises over the target scalar")
+}
